@@ -16,7 +16,8 @@ RULE = ("H: breadth-first exploration (depth<=D, pool<=4) of histories of table 
         "E: every table with 0..3 rows x 0..3 columns: >> / << / T.T / slices / masks preserve cells exactly; ragged input never yields a Table. "
         "non-trivial = state containing a table reached through at least one failed or in-place operation, or a zero-size table")
 ASSUMPTIONS = ["'rejected' for ragged input = an exception, or (as Vector.__new__ documents) a plain non-Table vector with a warning",
-               "out-of-range row access is not specified by the statement and not judged"]
+               "out-of-range row access: only 'an index that no column has never produces a row' is judged (which exception, and whether it is "
+               "raised by t[i] or when the row is read, is not)"]
 
 
 class Disabled(Exception):
@@ -53,6 +54,36 @@ def table_invariant(t):
     for got, lab in ((rows_idx, "indexed"), (rows_it, "iterated")):
         if len(got) != n or any(not same_list(g, w) for g, w in zip(got, want)):
             return (f"{lab}-rows-differ-from-columns", {"rows": got, "columns_say": want})
+    # rows taken first and read later, with other reads of the table in between (a row is a value, not a cursor)
+    try:
+        held = [t[i] for i in range(n)]
+        if n:
+            t.shape; t[n - 1]; len(t)
+            if cols:
+                try:
+                    t[n - 1, 0]
+                except Exception:
+                    pass                  # a table whose cells are vectors has more dimensions; not this check's subject
+        rows_held = [list(h) for h in held]
+    except Exception as e:
+        return ("held-row-raises-" + type(e).__name__, None)
+    if any(not same_list(g, w) for g, w in zip(rows_held, want)):
+        return ("held-rows-differ-from-columns", {"rows": rows_held, "columns_say": want})
+    # negative indices count from the end; an index no column has must not produce a row
+    if cols:
+        for i in list(range(-2 * n - 2, 0)) + [n, n + 1, 2 * n, 2 * n + 1]:
+            try:
+                col_say = [c._underlying[i] for c in cols]
+            except IndexError:
+                col_say = None
+            try:
+                got = list(t[i])
+            except Exception:
+                got = None
+            if col_say is None and got is not None:
+                return ("row-produced-for-an-index-no-column-has", {"index": i, "len": n, "row": got})
+            if col_say is not None and (got is None or not same_list(got, col_say)):
+                return ("negative-index-row-differs-from-columns", {"index": i, "row": got, "columns_say": col_say})
     return None
 
 
@@ -397,18 +428,46 @@ def _py(hist):
 # ------------------------------------------------------------------------------------------ E part
 def unit_tables(unit):
     from serif import Vector, Table
-    _, nrows, ncols = unit
+    _, nrows, ncols = unit[:3]
+    kind = unit[3] if len(unit) > 3 else "int"
     agg = Agg()
+    from datetime import date as _date
+
+    def val(c, r, kind=kind):
+        """cell of column c (column 90 = a new column, row 70 = a new row), by cell kind"""
+        k = ("int", "str", "bytes")[c % 3] if kind == "mixed" else kind
+        n = 10 * c + r
+        if k == "int":
+            return n
+        if k == "str":
+            return f"s{n}" if n % 4 else ""             # multi-character strings and the empty string: one cell each
+        if k == "bytes":
+            return (b"ab%d" % n, b"z", b"")[n % 3]      # several bytes, one byte, none: one cell each
+        if k == "float?":
+            return None if (c + r) % 3 == 0 else n + 0.5
+        if k == "date":
+            return _date(2000 + c, 1 + r % 12, 1 + n % 28)
+        if k == "tuple":
+            return (n, n + 1)
+        raise KeyError(k)
 
     def mk():
-        return Table([Vector([10 * c + r for r in range(nrows)], name=f"c{c}") for c in range(ncols)]) if ncols else Table()
+        return Table([Vector([val(c, r) for r in range(nrows)], name=f"c{c}") for c in range(ncols)]) if ncols else Table()
 
-    base = [[10 * c + r for r in range(nrows)] for c in range(ncols)]
+    base = [[val(c, r) for r in range(nrows)] for c in range(ncols)]
     agg.states += 1
-    case = {"rows": nrows, "cols": ncols}
+    case = {"rows": nrows, "cols": ncols, "cell_kind": kind}
+
+    class _Cells(list):
+        """cell matrix compared type-exactly (1 != 1.0 != True, b'z' != 122)"""
+        def __eq__(self, other):
+            return len(self) == len(other) and all(same_list(a, b) for a, b in zip(self, other))
+
+        def __ne__(self, other):
+            return not self.__eq__(other)
 
     def cells(t):
-        return [list(c._underlying) for c in t._underlying]
+        return _Cells(list(c._underlying) for c in t._underlying)
 
     def expect_table(site, thunk, want, inplace=False):
         agg.evals += 1; agg.transitions += 1; agg.compared += 1
@@ -455,7 +514,7 @@ def unit_tables(unit):
     if bad:
         agg.violation(V("Table.construct", bad[0], dict(case, detail=bad[1])))
     if ncols:
-        new = [900 + r for r in range(nrows)]
+        new = [val(90, r) for r in range(nrows)]
         expect_table("rshift.vector", lambda t: t >> Vector(list(new), name="n"), base + [new])
         expect_table("rshift.dict", lambda t: t >> {"n": list(new)}, base + [new])
         expect_table("rshift.list", lambda t: t >> list(new), base + [new])
@@ -463,7 +522,7 @@ def unit_tables(unit):
         for d in (1, -1):
             if nrows + d < 0:
                 continue
-            wrong = [900 + r for r in range(nrows + d)]
+            wrong = [val(90, r) for r in range(nrows + d)]
             expect_reject("rshift.vector.wrong-length", lambda t: t >> Vector(list(wrong)))
             expect_reject("rshift.dict.wrong-length", lambda t: t >> {"n": list(wrong)})
             if wrong:
@@ -473,13 +532,17 @@ def unit_tables(unit):
             expect_reject("Table({...}).unequal", lambda t: Table({"a": list(base[0]), "b": list(wrong)}))
             if nrows and wrong:
                 expect_reject("Vector([...]).unequal", lambda t: Vector([Vector(list(base[0])), Vector(list(wrong))]))
-        row = [700 + c for c in range(ncols)]
+        row = [val(c, 70) for c in range(ncols)]
         expect_table("lshift.row", lambda t: t << list(row), [b + [x] for b, x in zip(base, row)])
+        expect_table("lshift.row-tuple", lambda t: t << tuple(row), [b + [x] for b, x in zip(base, row)])
+        if nrows:
+            expect_table("lshift.row-of-a-table", lambda t: t << mk()[0], [b + [b[0]] for b in base])
+            expect_table("lshift.row.twice", lambda t: (t << list(row)) << list(row), [b + [x, x] for b, x in zip(base, row)])
         expect_table("lshift.table", lambda t: t << mk(), [b + b for b in base])
         for d in (1, -1):
             if ncols + d < 1:
                 continue
-            expect_reject("lshift.row.wrong-width", lambda t: t << [700] * (ncols + d))
+            expect_reject("lshift.row.wrong-width", lambda t: t << [val(0, 70)] * (ncols + d))
         if nrows:
             expect_table("T.T", lambda t: t.T.T, base)
         for sl in (slice(0, 1), slice(1, None), slice(0, 0), slice(None, None, -1), slice(None, None, 2)):
@@ -500,10 +563,10 @@ def check(ctx):
     depth = ctx.pick(3, 4)
     drv = Driver(pool=ctx.pick(4, 4))
     explorer.bfs(drv, depth, agg)
-    units = [("tab", r, c) for r in range(0, 4) for c in range(0, 4)]
+    units = [("tab", r, c, k) for r in range(0, 4) for c in range(0, 4) for k in ("int", "str", "bytes", "mixed", "float?", "date")]
     for p in core.pmap(unit_tables, units):
         agg.merge(p)
-    agg.notes["bound"] = f"H: depth<={depth} from 4 seed worlds, pool<=4; E: tables 0..3 x 0..3"
+    agg.notes["bound"] = f"H: depth<={depth} from 4 seed worlds, pool<=4; E: tables 0..3 x 0..3 x 6 cell kinds (int, str incl. empty, bytes of 0/1/several bytes, mixed, nullable float, date)"
     return agg
 
 
